@@ -325,7 +325,132 @@ theorem repairKey_hot_only (s : HC) {k : Key} {h : Bytes} (hc : s.cold k = none)
     (repairKey s k).cold k = some h := by
   simp [repairKey, hc, hh, SpecMap.write]
 
+/-- a short pack name for the closed witnesses -/
+def tIdA' : Name := ['1', 'a']
+
+/-! #### (3b) which files the repair reaches: listings and the tree packs of the index (also those marked for deletion) -/
+
+theorem repairKey_cold_cases (s : HC) (x k : Key) {d : Bytes} (h : (repairKey s x).cold k = some d) :
+    s.cold k = some d ∨ (s.cold k = none ∧ s.hot k = some d) := by
+  by_cases e : k = x
+  · subst e
+    cases hc : s.cold k with
+    | some c => left; rw [repairKey_keeps_cold s k k hc] at h; exact h
+    | none =>
+      cases hh : s.hot k with
+      | none => simp [repairKey, hc, hh] at h
+      | some hb => right; simp [repairKey, hc, hh, SpecMap.write] at h; exact ⟨rfl, by rw [h]⟩
+  · rw [(repairKey_other s e).2] at h; exact Or.inl h
+
+theorem repairKey_cold_none {s : HC} {x k : Key} (h : (repairKey s x).cold k = none) : s.cold k = none := by
+  cases hc : s.cold k with
+  | none => rfl
+  | some c => rw [repairKey_keeps_cold s x k hc] at h; cases h
+
+theorem repairKey_hot_of_cold_none {s : HC} {x k : Key} (h : (repairKey s x).cold k = none) :
+    (repairKey s x).hot k = s.hot k := by
+  by_cases e : k = x
+  · subst e
+    have hc := repairKey_cold_none h
+    cases hh : s.hot k with
+    | none => simp [repairKey, hc, hh]
+    | some hb => simp [repairKey, hc, hh, SpecMap.write] at h
+  · exact (repairKey_other s e).1
+
+/-- a file of the cold store after the repair was there before, or was a hot-only file (completed into the cold store) -/
+theorem repair_cold_cases (s : HC) (keys : List Key) (k : Key) {d : Bytes} (h : (repair s keys).cold k = some d) :
+    s.cold k = some d ∨ (s.cold k = none ∧ s.hot k = some d) := by
+  induction keys generalizing s with
+  | nil => exact Or.inl h
+  | cons x rest ih =>
+    rcases ih (repairKey s x) h with h1 | ⟨h1, h2⟩
+    · exact repairKey_cold_cases s x k h1
+    · exact Or.inr ⟨repairKey_cold_none h1, by rw [← repairKey_hot_of_cold_none h1]; exact h2⟩
+
+/-- a hot-only file stays in the hot store, whatever is repaired -/
+theorem repair_keeps_hot_only (s : HC) (keys : List Key) (k : Key) {d : Bytes} (hc : s.cold k = none)
+    (hh : s.hot k = some d) : (repair s keys).hot k = some d := by
+  induction keys generalizing s with
+  | nil => exact hh
+  | cons x rest ih =>
+    show (repair (repairKey s x) rest).hot k = some d
+    by_cases e : k = x
+    · subst e
+      have h1 : (repairKey s k).hot k = some d := by simp [repairKey, hc, hh]
+      have h2 : (repairKey s k).cold k = some d := repairKey_hot_only s hc hh
+      exact repair_keeps_fixed _ rest k h1 h2
+    · exact ih (repairKey s x) (by rw [(repairKey_other s e).2]; exact hc) (by rw [(repairKey_other s e).1]; exact hh)
+
+/-- **The repair re-establishes hot ⊇ cold whenever it reaches every mirrored file of the cold store**: `keys` = the ids the
+repair works on.  (What "reaches" means for pack files is `treePacks`, below.) -/
+theorem repair_hot_superset_of_covered {s : HC} (hs : HonestSizes s) (keys : List Key)
+    (hk : ∀ k c, Mirrored tree k = true → s.cold k = some c → k ∈ keys) : HotSup tree (repair s keys) := by
+  intro k d hm hc
+  rcases repair_cold_cases s keys k hc with h | ⟨h1, h2⟩
+  · exact repair_fixes hs keys (hk k d hm h) h
+  · exact repair_keeps_hot_only s keys k h1 h2
+
+theorem repair_append (s : HC) (a b : List Key) : repair (repair s a) b = repair s (a ++ b) := by
+  simp [repair, List.foldl_append]
+
+theorem mem_treePacks {idx : List IndexFileM} {id : Name} :
+    id ∈ treePacks idx ↔ ∃ f ∈ idx, ∃ p, (p ∈ f.packs ∨ p ∈ f.packsToDelete) ∧ p.isTree = true ∧ p.id = id := by
+  simp only [treePacks, IndexFileM.allPacks, List.mem_map, List.mem_filter, List.mem_flatMap, List.mem_append]
+  constructor
+  · rintro ⟨p, ⟨⟨f, hf, hp⟩, ht⟩, rfl⟩; exact ⟨f, hf, p, hp, ht, rfl⟩
+  · rintro ⟨f, hf, p, hp, ht, rfl⟩; exact ⟨p, ⟨⟨f, hf, hp⟩, ht⟩, rfl⟩
+
+theorem mem_packKeys {idx : List IndexFileM} {listed : List Name} {id : Name} :
+    (FileType.pack, id) ∈ packKeys idx listed ↔ id ∈ listed ∧ id ∈ treePacks idx := by
+  simp [packKeys, List.mem_map, List.mem_filter]
+
+/-- **`repair hotcold` (all file types, then the packs) recreates the hot store from the cold one**: for every hot store
+(files missing or incomplete), every history of index files — provided the listings are complete and every tree pack of
+the cold store is listed by some index file under `packs` **or under `packs_to_delete`** (a pack a prune has only marked
+is still in the cold store and must be in the hot store too) — afterwards hot ⊇ cold on keys, snapshots, index files and
+tree packs, byte-identically, and the cold store holds what it held. -/
+theorem repair_hotcold_repo_restores {s : HC} (hs : HonestSizes s) (keys : List Key) (idx : List IndexFileM)
+    (listed : List Name)
+    (hk : ∀ k c, k.1 ≠ .pack → Mirrored tree k = true → s.cold k = some c → k ∈ keys)
+    (hl : ∀ id c, s.cold (.pack, id) = some c → id ∈ listed)
+    (hidx : ∀ id c, tree id = true → s.cold (.pack, id) = some c →
+      ∃ f ∈ idx, ∃ p, (p ∈ f.packs ∨ p ∈ f.packsToDelete) ∧ p.isTree = true ∧ p.id = id) :
+    HotSup tree (repairRepo s keys idx listed) ∧
+    ∀ k c, s.cold k = some c → (repairRepo s keys idx listed).cold k = some c := by
+  unfold repairRepo repairPacks
+  rw [repair_append]
+  refine ⟨repair_hot_superset_of_covered hs _ ?_, fun k c h => repair_keeps_cold s _ k h⟩
+  intro k c hm hc
+  obtain ⟨t, id⟩ := k
+  by_cases ht : t = .pack
+  · subst ht
+    have htree : tree id = true := by simpa [Mirrored] using hm
+    exact List.mem_append_right _ (mem_packKeys.2 ⟨hl id c hc, mem_treePacks.2 (hidx id c htree hc)⟩)
+  · exact List.mem_append_left _ (hk (t, id) c ht hm hc)
+
+/-- pack files that are not tree packs of the index (data packs, unlisted packs) are never touched by the pack repair -/
+theorem repairPacks_other (s : HC) (idx : List IndexFileM) (listed : List Name) {k : Key}
+    (h : k ∉ packKeys idx listed) :
+    (repairPacks s idx listed).hot k = s.hot k ∧ (repairPacks s idx listed).cold k = s.cold k := by
+  unfold repairPacks
+  generalize packKeys idx listed = keys at h
+  induction keys generalizing s with
+  | nil => exact ⟨rfl, rfl⟩
+  | cons x rest ih =>
+    have hx : k ≠ x := fun e => h (e ▸ List.mem_cons_self)
+    have hr : k ∉ rest := fun e => h (List.mem_cons_of_mem _ e)
+    have := ih (repairKey s x) hr
+    exact ⟨this.1.trans (repairKey_other s hx).1, this.2.trans (repairKey_other s hx).2⟩
+
 /-! #### non-vacuity / witnesses -/
+
+/-- a tree pack that a prune has only MARKED (listed under `packs_to_delete`) is recreated in a lost hot store; a
+relevance filter that looks at `packs` only (the seeded change C16-2) would leave it out: `packKeys` is then empty -/
+example :
+    let idx : List IndexFileM := [{ packs := [], packsToDelete := [⟨tIdA', true⟩] }]
+    let s : HC := { hot := fun _ => none, cold := fun k => if k = (.pack, tIdA') then some [9, 9] else none }
+    (repairPacks s idx [tIdA']).hot (.pack, tIdA') = some [9, 9] ∧
+    packKeys [{ packs := [], packsToDelete := [] }] [tIdA'] = [] := by decide
 
 def tIdA : Name := List.replicate 64 '1'
 def dIdB : Name := List.replicate 64 'f'
